@@ -392,3 +392,100 @@ func tokenVsCharacter(p *Prog, rule string) *RuleResult {
 	}
 	return r
 }
+
+// ---------------------------------------------------------------------------------------------
+// C01/R8 (= C13/R10) escaped-identifier-end-is-guarded.
+//
+// printSpaceBeforeIdentifier separates a keyword or identifier from what was printed before it by
+// looking at the last byte of the output: an identifier character needs a space. With the ASCII
+// charset an identifier can end in an escape. `\uXXXX` ends in a hex digit, which is an identifier
+// character; `\u{XXXXX}` ends in `}`, which is not — `丽 in y` was printed as `\u{2F800}in y`, one
+// identifier. Rule: for every byte that the identifier printers can emit last (read off the
+// constants and formats they append) and that is not an identifier character, the gluing test
+// compares the last byte with it.
+func escapedIdentifierEndGuarded(p *Prog, rule string) *RuleResult {
+	r := NewRule(rule, "every non-identifier byte that an escaped identifier can end with is tested by printSpaceBeforeIdentifier")
+	guard := p.FindFunc("js_printer.(*printer).printSpaceBeforeIdentifier")
+	if !r.Anchor("js_printer.(*printer).printSpaceBeforeIdentifier", guard != nil) {
+		return r
+	}
+	// bytes compared in the guard (and in the helpers it calls, one level)
+	tested := map[int64]bool{}
+	collect := func(fn *ssa.Function) {
+		eachInstr(fn, func(b *ssa.BasicBlock, in ssa.Instruction) {
+			if bo, ok := in.(*ssa.BinOp); ok && (bo.Op == token.EQL || bo.Op == token.NEQ) {
+				if k, ok := constInt(bo.Y); ok {
+					tested[k] = true
+				}
+				if k, ok := constInt(bo.X); ok {
+					tested[k] = true
+				}
+			}
+		})
+	}
+	collect(guard)
+	eachInstr(guard, func(b *ssa.BasicBlock, in ssa.Instruction) {
+		if c, ok := in.(*ssa.Call); ok {
+			if callee := c.Call.StaticCallee(); callee != nil && pkgPathOf(callee) == modPath+"/internal/js_printer" {
+				collect(callee)
+			}
+		}
+	})
+	isIdentByte := func(c byte) bool {
+		return c == '_' || c == '$' || (c >= '0' && c <= '9') || (c >= 'a' && c <= 'z') || (c >= 'A' && c <= 'Z')
+	}
+	lastOfFormat := func(s string) (byte, bool) {
+		// strip a trailing formatting verb: it prints hex digits / identifier text
+		for len(s) >= 2 && s[len(s)-2] == '%' {
+			return 'x', true
+		}
+		if len(s) == 0 {
+			return 0, false
+		}
+		return s[len(s)-1], true
+	}
+	n := 0
+	tails := map[byte]string{}
+	for _, fn := range p.ModuleFuncs() {
+		if pkgPathOf(fn) != modPath+"/internal/js_printer" {
+			continue
+		}
+		name := fn.Name()
+		if name != "QuoteIdentifier" && !strings.HasPrefix(name, "printIdentifier") {
+			continue
+		}
+		eachInstr(fn, func(b *ssa.BasicBlock, in ssa.Instruction) {
+			c, ok := in.(*ssa.Call)
+			if !ok {
+				return
+			}
+			if calleeFullName(c) == "fmt.Sprintf" && len(c.Call.Args) > 0 {
+				if s, ok := constString(c.Call.Args[0]); ok && strings.Contains(s, "\\u") {
+					n++
+					if last, ok := lastOfFormat(s); ok && !isIdentByte(last) {
+						tails[last] = p.Pos(c.Pos())
+					}
+				}
+			}
+		})
+	}
+	if !r.Anchor("escape formats in the identifier printers", n >= 1) {
+		return r
+	}
+	if len(tails) == 0 {
+		r.Instances++
+		r.OK("identifier escapes end in identifier characters", true, "no escape format of the identifier printers ends in a non-identifier byte")
+		return r
+	}
+	for last, pos := range tails {
+		r.Instances++
+		key := fmt.Sprintf("an escaped identifier can end in %q: the gluing test looks for it", string(last))
+		if tested[int64(last)] {
+			r.OK(key, true, "printSpaceBeforeIdentifier (or a helper it calls) compares the last byte with it")
+		} else {
+			r.Fail(key, pos, fmt.Sprintf("with the ASCII charset an identifier can end in %q (escape format at %s), which printSpaceBeforeIdentifier does not recognise as the end of an identifier: a following keyword is glued on (`\\u{2F800}in y` is one identifier followed by `y`)", string(last), pos))
+		}
+	}
+	r.Floor(1)
+	return r
+}
